@@ -31,6 +31,9 @@ pub struct Case {
     /// NewChannelReq (index, frequency) sent after the DlChannelReq: redefines the channel
     #[serde(default)]
     pub redefine: Option<(u8, u32)>,
+    /// further command downlinks (raw FOpts), delivered after the ones above
+    #[serde(default)]
+    pub extra: Vec<Vec<u8>>,
     pub draw: u32,
     /// join transaction instead of a data uplink
     pub join: bool,
@@ -73,6 +76,7 @@ fn setup_cmds(c: &Case) -> Vec<Vec<u8>> {
         let fb = cmds::freq_bytes(f);
         v.push(vec![0x07, i, fb[0], fb[1], fb[2], 0x50]);
     }
+    v.extend(c.extra.iter().cloned());
     v
 }
 
@@ -334,7 +338,7 @@ pub fn run(tier: Tier, replay: Option<&str>) {
         let (def_f, def_dr) = rr::rx2_default(region);
         let draws: Vec<u32> = if fixed { (0..64).collect() } else { (0..8).collect() };
         for front in fronts {
-            let base = |dev: DevCfg| Case { front: front.into(), dev, dr: None, rxparam: None, rxdelay: None, newchannel: None, dlchannel: None, redefine: None, draw: 0, join: false, dr_between: None, tx_done_ms: 0 };
+            let base = |dev: DevCfg| Case { front: front.into(), dev, dr: None, rxparam: None, rxdelay: None, newchannel: None, dlchannel: None, redefine: None, extra: vec![], draw: 0, join: false, dr_between: None, tx_done_ms: 0 };
             let abp = DevCfg::abp(region);
             // P1: data rate x RX1 offset x channel choice
             for &d in &drs {
@@ -405,6 +409,22 @@ pub fn run(tier: Tier, replay: Option<&str>) {
                     }
                 }
             }
+            // P9: the mask is left with only an extra channel, the extra channel is then deleted: the next uplink
+            // falls back to the default channels, whose negotiated downlink frequencies are still in force
+            if !fixed {
+                let fq = cmds::freqs(region);
+                for idx in 0..rr::default_channels(region).len() as u8 {
+                    for draw in 0..8u32 {
+                        cases.push(Case {
+                            newchannel: Some((3, fq[3])),
+                            dlchannel: Some((idx, fq[2])),
+                            extra: vec![cmds::link_adr(15, 15, 0x0008, 0, 1, false).bytes, vec![0x07, 3, 0, 0, 0, 0x50]],
+                            draw,
+                            ..base(abp.clone())
+                        });
+                    }
+                }
+            }
             // P7: a re-join on a default channel whose downlink frequency was remapped (dynamic plans)
             if !fixed {
                 for idx in 0..3u8 {
@@ -454,7 +474,7 @@ pub fn run(tier: Tier, replay: Option<&str>) {
     let coverage = json!({
         "evaluations": ctx.evals(),
         "distinct_nontrivial": nontrivial.load(Ordering::Relaxed),
-        "rule": "eight full sub-products per region and front-end (nb, async, async+Class C), each case a fresh real device brought into the configuration by authentic RXParamSetupReq / RXTimingSetupReq / DlChannelReq downlinks and set_datarate: (P1) every region-defined uplink data rate x RX1DROffset 0..7 x first RNG draw (all 64 for the 72-channel plans); (P2) RXTimingSetupReq delay 0..15 x board offset/lead {0,15,50,100} x TX end time; (P2b, nb) TX end times around 2^31 ms and the 2^32 ms wrap of the clock x delay x offset; (P3) all 16 RX2 data rate values x 2 frequencies x lowest/highest uplink rate; (P4) DlChannelReq on channels 0..3 x 2 frequencies x draws; (P5) joins under join-bias settings x draws; (P6, nb) set_datarate between TX and the windows; (P7) a re-join on a default channel after DlChannelReq remapped its downlink frequency; (P8) NewChannelReq, DlChannelReq, then a NewChannelReq redefining the same channel. non-trivial = cases with an installed override or a join",
+        "rule": "eight full sub-products per region and front-end (nb, async, async+Class C), each case a fresh real device brought into the configuration by authentic RXParamSetupReq / RXTimingSetupReq / DlChannelReq downlinks and set_datarate: (P1) every region-defined uplink data rate x RX1DROffset 0..7 x first RNG draw (all 64 for the 72-channel plans); (P2) RXTimingSetupReq delay 0..15 x board offset/lead {0,15,50,100} x TX end time; (P2b, nb) TX end times around 2^31 ms and the 2^32 ms wrap of the clock x delay x offset; (P3) all 16 RX2 data rate values x 2 frequencies x lowest/highest uplink rate; (P4) DlChannelReq on channels 0..3 x 2 frequencies x draws; (P5) joins under join-bias settings x draws; (P6, nb) set_datarate between TX and the windows; (P7) a re-join on a default channel after DlChannelReq remapped its downlink frequency; (P8) NewChannelReq, DlChannelReq, then a NewChannelReq redefining the same channel; (P9) DlChannelReq on a default channel, the mask reduced to an extra channel, that channel deleted (fallback to the default channels). non-trivial = cases with an installed override or a join",
         "samples": [serde_json::to_value(&cases[0]).unwrap(), serde_json::to_value(&cases[cases.len() / 2]).unwrap(), serde_json::to_value(cases.last().unwrap()).unwrap()],
         "exhaustive": true,
         "regions": regions,
